@@ -4,10 +4,10 @@
    * fx = true  (annotation around the body's own bindings, continuation
      outside): sound for every program;
    * fx = false (the code as it is: continuation compiled inside the
-     annotation): sound for programs in which no statement follows a `with`
-     inside its own block (`wl_block`), because then the continuation that
-     ends up inside the annotation is a bare variable, whose value does not
-     depend on the active properties;
+     annotation): sound for programs in which only variable copies follow a
+     `with` inside its own block (`wl_block`; the copies are what IfBundling
+     puts around a branch), because then the continuation that ends up inside
+     the annotation does not depend on the active properties;
    and refuted by computation on the known witness. *)
 From Coq Require Import ZArith List String Bool Lia FunctionalExtensionality.
 From FpyV Require Import Backend.FPCore Backend.FPCoreProofs Backend.ToFPCore.
@@ -528,7 +528,7 @@ Section Sound.
     eapply cg_func_of_ctxs; [|exact Hc]. apply cgood_coded.
   Qed.
 
-  (* the translation as coded: sound when no statement follows a `with` in its block *)
+  (* the translation as coded: sound when only variable copies follow a `with` in its block *)
   Theorem to_fpcore_as_coded_partial : forall f p,
     to_fpcore_as_coded f = Some p -> ctxs_func expressible_coded f = true ->
     wl_block (f_body f) = true ->
